@@ -23,6 +23,11 @@ def unhx(s):
     return b'' if s == '-' else bytes.fromhex(s)
 
 
+class IntSym:
+    def __init__(self, v):
+        self.v = v
+
+
 class SymBytes(bytes):
     """placeholder for a (partly) symbolic byte string inside an output line"""
     sym = None
@@ -129,8 +134,8 @@ class ScriptRunner:
             for k, sv in enumerate(self.outsyms):
                 ph = '{%d}' % k
                 if ph in o:
-                    if len(sv) == 2 and sv[0] == 'int':
-                        o = o.replace(ph, str(val(sv[1])))
+                    if isinstance(sv, IntSym):
+                        o = o.replace(ph, str(val(sv.v)))
                     else:
                         o = o.replace(ph, hx(bytes(val(b) for b in sv)))
             return o
@@ -338,7 +343,7 @@ class ScriptRunner:
             if type(v) is int:
                 return 'ok:%d' % (v & ((1 << 64) - 1))
             k = len(self.outsyms)
-            self.outsyms.append(('int', v))
+            self.outsyms.append(IntSym(v))
             return 'ok:{%d}' % k
         if op == 'hread':
             n = int(t[2])
